@@ -1131,6 +1131,26 @@ class Engine(object):
     else:
       prevented.difference_update(row_ids)
 
+  def _apply_recalc_exemptions(self):
+    """
+    Drops the rows exempt from recalculation from the scheduled recalculations of data columns
+    (those with trigger formulas), as _recompute_step() would do if recalculation happened now.
+    """
+    for node, exempt in self._prevent_recompute_map.items():
+      dirty_rows = self.recompute_map.get(node)
+      table = self.tables.get(node.table_id)
+      if (not exempt or dirty_rows is None or
+          not table or not table.has_column(node.col_id) or
+          table.get_column(node.col_id).is_formula()):
+        continue
+      if dirty_rows == depend.ALL_ROWS:
+        dirty_rows = SortedSet(table.row_ids)
+      dirty_rows = dirty_rows - exempt
+      if dirty_rows:
+        self.recompute_map[node] = dirty_rows
+      else:
+        self.recompute_map.pop(node)
+
   def get_pending_trigger_recalcs(self):
     """
     Returns a dict mapping the node of each data column (i.e. one with a trigger formula) that is
@@ -1347,6 +1367,9 @@ class Engine(object):
 
         # At the start of each useraction, clear exemptions. These are used to avoid recalcs of
         # trigger-formula columns for which the same useractions sets an explicit value.
+        # Recalculation only happens after the last useraction, so before forgetting the
+        # exemptions of the previous useraction, apply them to what it has scheduled.
+        self._apply_recalc_exemptions()
         self._prevent_recompute_map.clear()
 
         self.out_actions.retValues.append(self._apply_one_user_action(user_action))
